@@ -76,12 +76,8 @@ func newMrCtx(r *core.Run) *mrCtx {
 	m.finishFns = map[*ssa.Function]bool{}
 	for _, f := range m.funcs {
 		for _, c := range core.Calls(f, m.isOnceDo) {
-			for _, a := range c.Common().Args {
-				if g := fnOfValue(a); g != nil {
-					if len(core.Instrs(g, func(in ssa.Instruction) bool { return isBuiltinCall(in, "close") })) > 0 {
-						m.finishFns[f] = true
-					}
-				}
+			if m.isFinishDo(c) {
+				m.finishFns[f] = true
 			}
 		}
 	}
@@ -148,8 +144,26 @@ func (m *mrCtx) isFinishCall(in ssa.Instruction) bool {
 	if !ok {
 		return false
 	}
+	if m.isFinishDo(c) {
+		return true // the finish function's body in place
+	}
 	g := calleeFn(c)
 	return g != nil && m.finishFns[g]
+}
+
+// isFinishDo: sync.Once.Do on a closure that closes channels (what a finish function does).
+func (m *mrCtx) isFinishDo(c ssa.CallInstruction) bool {
+	if !m.isOnceDo(c) {
+		return false
+	}
+	for _, a := range c.Common().Args {
+		if g := fnOfValue(a); g != nil {
+			if len(core.Instrs(g, func(in ssa.Instruction) bool { return isBuiltinCall(in, "close") })) > 0 {
+				return true
+			}
+		}
+	}
+	return false
 }
 
 // goStmts lists every `go` of the package with its body.
@@ -712,13 +726,14 @@ func c07(r *core.Run) {
 		}
 		for _, cb := range cancelBodies {
 			o.Site(1, core.FuncName(cb))
-			par := cb.Parent()
-			if par == nil {
+			// every place where the body's closure is created (the inlined copies of its creator share it)
+			created := closureSites(cb)
+			if cb.Parent() == nil || len(created) == 0 {
 				o.Fail(p.Pos(cb.Pos()), "%s records the cancel error but is not a closure", core.FuncName(cb))
 				continue
 			}
-			for _, in := range core.Instrs(par, func(in ssa.Instruction) bool { mc, ok := in.(*ssa.MakeClosure); return ok && mc.Fn == ssa.Value(cb) }) {
-				mc := in.(*ssa.MakeClosure)
+			onces := map[ssa.Value]bool{}
+			for _, mc := range created {
 				for _, ref := range *mc.Referrers() {
 					if _, dbg := ref.(*ssa.DebugRef); dbg {
 						continue
@@ -730,10 +745,12 @@ func c07(r *core.Run) {
 					}
 					if ok && m.isOnceDo(c) {
 						// inline form: once.Do(func(){ body }) on a Once local to the enclosing call
-						if _, isAl := cellOf(core.Strip(c.Call.Args[0])).(*ssa.Alloc); isAl {
+						if al, isAl := cellOf(core.Strip(c.Call.Args[0])).(*ssa.Alloc); isAl {
+							onces[al] = true
 							continue
 						}
-						if _, isAl := resolve(c.Call.Args[0]).(*ssa.Alloc); isAl {
+						if al, isAl := resolve(c.Call.Args[0]).(*ssa.Alloc); isAl {
+							onces[al] = true
 							continue
 						}
 						o.Fail(p.InstrPos(ref), "the cancel body runs under a sync.Once that is not local to the MapReduce call")
@@ -847,6 +864,9 @@ func c07(r *core.Run) {
 					}
 				}
 			}
+			if len(onces) > 1 {
+				o.Fail(p.Pos(cb.Pos()), "the cancel body is run under %d different sync.Once values: a second cancel (through another one) overwrites the first error", len(onces))
+			}
 		}
 	})
 
@@ -857,22 +877,11 @@ func c07(r *core.Run) {
 		for _, cb := range cancelBodies {
 			o.Site(1, core.FuncName(cb))
 			// the cancel argument: the error-typed parameter of the body or of the closure around it
-			var errParam *ssa.Parameter
-			for _, fn := range []*ssa.Function{cb, cb.Parent()} {
-				if fn == nil || errParam != nil {
-					continue
-				}
-				for _, pa := range fn.Params {
-					if pa.Type().String() == "error" {
-						errParam = pa
-					}
-				}
-			}
-			if errParam == nil {
+			isErr := cancelArgument(cb)
+			if isErr == nil {
 				o.Unres("%s: cancel argument not found", core.FuncName(cb))
 				continue
 			}
-			isErr := func(v ssa.Value) bool { return resolve(v) == ssa.Value(errParam) }
 			if w := core.MustPass(core.Entry(cb), isSet, core.IsExit); w != nil {
 				o.Fail(p.InstrPos(w), "cancel can finish without recording an error: the call returns the reducer's value / ErrReduceNoOutput instead of the cancel error")
 			}
@@ -1302,6 +1311,62 @@ func c07(r *core.Run) {
 			}
 		}
 	})
+}
+
+// cancelArgument finds the error the cancel body was called with and returns a matcher
+// of the values that denote it inside the body: the body's own error parameter, or the
+// variable of the function around it that holds that function's error parameter and is
+// written nowhere else (the closure handed to Once.Do reads the wrapper's argument). When
+// the function around the body was inlined at several places, the body's closure is created
+// at each of them; the variable then holds the wrapper's parameter at one site at least,
+// and exactly one value at every site.
+func cancelArgument(cb *ssa.Function) func(ssa.Value) bool {
+	isError := func(t types.Type) bool { return t.String() == "error" }
+	var errParam *ssa.Parameter
+	for _, pa := range cb.Params {
+		if isError(pa.Type()) {
+			errParam = pa
+		}
+	}
+	if errParam != nil {
+		return func(v ssa.Value) bool { return resolve(v) == ssa.Value(errParam) }
+	}
+	sites := closureSites(cb)
+	var argVar *ssa.FreeVar
+	for i, fv := range cb.FreeVars {
+		pt, ok := fv.Type().Underlying().(*types.Pointer)
+		if !ok || !isError(pt.Elem()) {
+			continue
+		}
+		fromParam, single := false, len(sites) > 0
+		for _, mc := range sites {
+			if i >= len(mc.Bindings) {
+				single = false
+				continue
+			}
+			sts := storesToCell(cellOf(mc.Bindings[i]))
+			if len(sts) != 1 {
+				single = false
+				continue
+			}
+			if pa, ok := resolveLocal(sts[0].Val).(*ssa.Parameter); ok && isError(pa.Type()) {
+				fromParam = true
+			}
+		}
+		if fromParam && single {
+			if argVar != nil {
+				return nil // ambiguous
+			}
+			argVar = fv
+		}
+	}
+	if argVar == nil {
+		return nil
+	}
+	return func(v ssa.Value) bool {
+		u, ok := core.Strip(v).(*ssa.UnOp)
+		return ok && u.Op == token.MUL && u.X == ssa.Value(argVar)
+	}
 }
 
 // guardedByHelper accepts `if w.stopped() { return }; w.channel <- v`: the send s
